@@ -394,7 +394,7 @@ Definition dlconf (x : sx) : option lconf :=
 
 Definition sx_of_est (s : est) : sx :=
   L [sx_of_list (fun p => L [sx_of_str (fst p); sx_of_str (print (snd p))]) (e_rules s);
-     sx_of_list (fun p => sx_of_str (fst p)) (e_file_rules s);
+     sx_of_list (fun p => L [sx_of_str (fst p); sx_of_str (print (snd p))]) (e_file_rules s);
      sx_of_bool (e_path_known s);
      sx_of_option (fun p => sx_of_N (fst p)) (e_mcache s);
      sx_of_list (sx_of_option sx_of_N) (e_dmtimes s)].
